@@ -629,7 +629,7 @@ impl<'a, 'b> G<'a, 'b> {
         match self.c.weighted(&[5, 6, 3, if unusual { 1 } else { 0 }]) {
             0 => {
                 let v = self.c.choose(&[
-                    "\"s\"", "\"a b\"", "\" x \"", "\"\"", "'q\"q'", "\"l1\n   l2\"", "\"&amp;\"", "\"C:\\users\\x\"", "'\\1'", "\"end\\\"",
+                    "\"s\"", "\"a b\"", "\" x \"", "\"\"", "'q\"q'", "\"l1\n   l2\"", "\"&amp;\"", "\"C:\\users\\x\"", "'\\1'", "\"end\\\"", "\"cr\r\"", "\"\r\"",
                 ]);
                 v.to_string()
             }
@@ -794,7 +794,11 @@ impl<'a, 'b> G<'a, 'b> {
             last_text = k == 0 || k == 6;
             kinds.push(k);
             match k {
-                0 => s.push_str(self.c.choose(&["text", " spaced out ", "\n  line\n  two\n", "a&amp;b", "&nbsp;", " "])),
+                0 => s.push_str(self.c.choose(&[
+                    "text", " spaced out ", "\n  line\n  two\n", "a&amp;b", "&nbsp;", " ",
+                    // lone carriage returns, also as the very last character of the run
+                    "cr\r", "\r", "a\r\n b\r", "&#13;", "x&#10;",
+                ])),
                 1 => {
                     let e = match self.c.pick(6) {
                         0 => {
